@@ -167,6 +167,8 @@ def explore_gaps(item):
     prop, tier, label, tfc, first, g0 = item[:6]
     micro = item[6] if len(item) > 6 else 0  # sub-second part added to every timestamp (the library drops it)
     sp = spaces(tier)
+    if len(item) > 7:
+        sp = dict(sp, plumb_gaps=item[7])
     cfg = BY_LABEL[label]
     rep = Report()
     n = sp["plumb_n"]
@@ -540,6 +542,7 @@ def main(prop, tier):
                 items.append((prop, tier, cfg["label"], tfc, g, fl, n))
     reps = pmap(explore, items)
     gap_items = [(prop, tier, l, tfc, first, g0) for l in PLUMB_POOL for tfc in sp["plumb_tfcs"] for first in "+b" for g0 in sp["plumb_gaps"]]
+    gap_items += [(prop, tier, l, (None, False, None, None), "b", g0, 0, "0t") for l in PLUMB_POOL for g0 in "0t"]  # duplicates on the base timeframe
     gap_items += [(prop, tier, l, sp["plumb_tfcs"][0], first, g0, 400000) for l in ("OBV", "VWAP", "EMA2", "ST2") for first in "+b" for g0 in sp["plumb_gaps"]]
     reps += pmap(explore_gaps, gap_items)
     reps += pmap(explore_hset, [(prop, tier, hi, hfill, k0) for hi in range(len(HSETS)) for hfill in (False, True) for k0 in (0, 3)])
